@@ -961,7 +961,7 @@ compactions, gossip traffic with loss, duplication, reordering, truncation) and 
   about the notification fold; a node flagged left has status `left` or no row),
 * `not_candidate_of_status` (`C18_left_stops_routing`, third clause).
 
-Unlike `C18_left_stops_routing`/`C18_shutdown_order` (whose `LeaveDelta` admits no internal entry but
+Unlike `C18_left_stops_routing`/`C18_shutdown_order` (whose `LeaveDelta` allows no internal entry but
 the marker) they also cover a leaver that has compacted its state before. -/
 
 /-- **A notified peer stops routing to the leaver at once.**  In any reachable state let `a` perform
@@ -1158,5 +1158,276 @@ theorem C18_system_leaver_advertises_nothing (ops : List SysOp) (hall : SysAllow
   · intro r xr V row hne hr hV hver hrow e
     have := Sys.row_eps_of_caught_up ops hall hne hr ha hV hver (fun e => by rw [hempty e]; decide) hrow e
     rw [this, hempty e]; rfl
+
+/-! ### Non-vacuity of the system-level theorems on concrete three-node runs
+
+As in `Props/C04.lean`: the sort-free prefix of a run (boots, upstream connects and disconnects,
+`LeaveLocal`) is evaluated by `decide`; the stream exchanges and the leaver's push (which sort their
+deltas with `List.mergeSort`, not evaluable in the kernel) are discharged by the theorems. -/
+
+section SysLeaveExample
+
+/-- **`C18_system_leave_notified` on the run of `Props/C04.lean`**: after the six exchanges of
+`SysEx.sched`, `n0`'s routing table lists `n1` (`C04_mirror_system`).  `n1` then leaves and notifies
+`n0`: right after that step `n0`'s view of `n1` is flagged left, the row is still there with status
+`left`, and `n1` is no candidate for any endpoint - although the row still lists `foo`. -/
+example (now : Nat) : ∃ xr V row,
+    (Sys.runRev (.leaveStream "n1" "n0" now :: .leave "n1" :: (SysEx.sched ++ SysEx.hist))).node "n0" = some xr ∧
+    xr.mgr.gossip.nodes.find "n1" = some V ∧ V.left = true ∧
+    xr.mgr.cluster.nodes.find "n1" = some row ∧ row.status = .left ∧
+    (∀ e, ∀ c ∈ xr.mgr.cluster.lookupCandidates e, c.id ≠ "n1") ∧
+    (∀ e allow cs, (xr.mgr.select e allow).1 = .remote cs → "n1" ∉ cs) := by
+  obtain ⟨x0, h0⟩ := SysEx.final_exists "n0" (Or.inl rfl)
+  obtain ⟨x1, h1⟩ := SysEx.final_exists "n1" (Or.inr (Or.inl rfl))
+  have hf1 := SysEx.final_node h1
+  simp only [show ("n1" = "n0") = False from by decide, show ("n1" = "n2") = False from by decide,
+    false_and, or_false, false_or, true_and] at hf1
+  obtain ⟨hlbs, hloc, hleft⟩ := hf1
+  obtain ⟨V0, hV0, hver⟩ := C04_caught_up_after_settle SysEx.hist SysEx.sched SysEx.allowed SysEx.quiet SysEx.joins
+    "n0" "n1" (by decide) x0 x1 h0 h1
+  have hreg : ∀ e, x1.mgr.registry e = if "foo" = e then [3] else [] := by
+    intro e; simp only [Upstream.Mgr.registry, hlbs, AMap.find_cons, AMap.find_nil]; split <;> rfl
+  obtain ⟨_, row0, hrow0, _⟩ := C04_mirror_system _ SysEx.allowed "n0" "n1" (by decide) x0 x1 h0 h1 V0 hV0 hver
+    hleft (by rw [hloc]; decide) (by rw [hloc]; decide) (fun e => by rw [hreg]; split <;> simp)
+  obtain ⟨_, xr, V, hr, hV, hl, _, _, hkeep, hc, hsel⟩ :=
+    C18_system_leave_notified _ SysEx.allowed "n1" "n0" (by decide) now x1 x0 h1 h0
+  obtain ⟨row, hrow, hst⟩ := hkeep row0 hrow0
+  exact ⟨xr, V, row, hr, hV, hl, hrow, hst, hc, hsel⟩
+
+namespace LeaveEx
+
+/-- three nodes boot; upstream 3 registers `foo` on `n1`, upstream 5 registers `foo` on `n2`, upstream 9
+registers `baz` on `n1`; then `n1` performs `LeaveLocal` **with both its upstreams still registered**
+(the race of `C18_leave_races_handlers`).  Latest operation first. -/
+def hist : List SysOp :=
+  [.leave "n1", .addConn "n1" 9 "baz", .addConn "n2" 5 "foo", .addConn "n1" 3 "foo",
+   .boot "n2" "g2" "p2" "a2", .boot "n1" "g1" "p1" "a1", .boot "n0" "g0" "p0" "a0"]
+
+/-- `n1` notifies `n0`; then one full exchange for each of the six ordered pairs -/
+def sched : List SysOp := SysEx.sched ++ [.leaveStream "n1" "n0" 0]
+
+theorem allowed : SysAllowed (sched ++ hist) := by
+  simp [sched, SysEx.sched, hist, SysAllowed, SysStepAllowed]
+
+theorem quiet : ∀ op ∈ sched, op.quiet.isSome = true := by decide
+
+theorem noLiveness : ∀ op ∈ sched ++ hist, ∀ n sus now, op ≠ .liveness n sus now := by
+  intro op hop n sus now
+  simp only [sched, SysEx.sched, hist, List.cons_append, List.nil_append, List.mem_cons, List.not_mem_nil,
+    or_false] at hop
+  rcases hop with rfl | rfl | rfl | rfl | rfl | rfl | rfl | rfl | rfl | rfl | rfl | rfl | rfl | rfl <;> simp
+
+set_option maxRecDepth 8000 in
+theorem hist_keys : (Sys.runRev hist).side.keys = ["n1", "n2", "n0"] := by decide
+
+set_option maxRecDepth 8000 in
+theorem hist_n0 : SysEx.summary (Sys.runRev hist) "n0" =
+    some ([], { id := "n0", status := .active, proxyAddr := "p0", adminAddr := "a0" }, false) := by decide
+set_option maxRecDepth 8000 in
+theorem hist_n1 : SysEx.summary (Sys.runRev hist) "n1" =
+    some ([("baz", { ups := [9] }), ("foo", { ups := [3] })],
+      { id := "n1", status := .active, proxyAddr := "p1", adminAddr := "a1", endpoints := [("baz", 1), ("foo", 1)] },
+      true) := by decide
+set_option maxRecDepth 8000 in
+theorem hist_n2 : SysEx.summary (Sys.runRev hist) "n2" =
+    some ([("foo", { ups := [5] })],
+      { id := "n2", status := .active, proxyAddr := "p2", adminAddr := "a2", endpoints := [("foo", 1)] }, false) := by decide
+
+theorem node_mem {k : String} (h : ((Sys.runRev hist).node k).isSome = true) : k = "n1" ∨ k = "n2" ∨ k = "n0" := by
+  have := SysEx.node_mem_keys h
+  rw [hist_keys] at this
+  simpa using this
+
+theorem joins : ∀ r b, r ≠ b → ((Sys.runRev hist).node r).isSome = true → ((Sys.runRev hist).node b).isSome = true →
+    ∃ now, SysOp.join r b true now ∈ sched := by
+  intro r b hne hr hb
+  rcases node_mem hr with rfl | rfl | rfl <;> rcases node_mem hb with rfl | rfl | rfl <;>
+    first
+    | exact absurd rfl hne
+    | exact ⟨_, by simp [sched, SysEx.sched]; rfl⟩
+
+/-- every node of the final state is one of the three, with the registry, local row and left-flag it
+had after `hist` -/
+theorem final_node {k : String} {x : SysNode} (h : (Sys.runRev (sched ++ hist)).node k = some x) :
+    (k = "n0" ∧ x.mgr.lbs = [] ∧
+        x.mgr.cluster.localNode = { id := "n0", status := .active, proxyAddr := "p0", adminAddr := "a0" } ∧
+        (own x.mgr.gossip).left = false) ∨
+    (k = "n1" ∧ x.mgr.lbs = [("baz", { ups := [9] }), ("foo", { ups := [3] })] ∧
+        x.mgr.cluster.localNode =
+          { id := "n1", status := .active, proxyAddr := "p1", adminAddr := "a1", endpoints := [("baz", 1), ("foo", 1)] } ∧
+        (own x.mgr.gossip).left = true) ∨
+    (k = "n2" ∧ x.mgr.lbs = [("foo", { ups := [5] })] ∧
+        x.mgr.cluster.localNode =
+          { id := "n2", status := .active, proxyAddr := "p2", adminAddr := "a2", endpoints := [("foo", 1)] } ∧
+        (own x.mgr.gossip).left = false) := by
+  have hs := SysEx.summary_quiet sched hist allowed quiet k
+  have hsome : ((Sys.runRev hist).node k).isSome = true := by
+    cases h0 : (Sys.runRev hist).node k with
+    | some _ => rfl
+    | none => simp [SysEx.summary, h0, h] at hs
+  simp only [SysEx.summary, h, Option.map_some] at hs
+  rcases node_mem hsome with rfl | rfl | rfl
+  · have := hist_n1; simp only [SysEx.summary] at this; rw [← hs] at this
+    simp only [Option.some.injEq, Prod.mk.injEq] at this
+    exact Or.inr (Or.inl ⟨rfl, this.1, this.2.1, this.2.2⟩)
+  · have := hist_n2; simp only [SysEx.summary] at this; rw [← hs] at this
+    simp only [Option.some.injEq, Prod.mk.injEq] at this
+    exact Or.inr (Or.inr ⟨rfl, this.1, this.2.1, this.2.2⟩)
+  · have := hist_n0; simp only [SysEx.summary] at this; rw [← hs] at this
+    simp only [Option.some.injEq, Prod.mk.injEq] at this
+    exact Or.inl ⟨rfl, this.1, this.2.1, this.2.2⟩
+
+theorem final_exists (k : String) (hk : k = "n0" ∨ k = "n1" ∨ k = "n2") :
+    ∃ x, (Sys.runRev (sched ++ hist)).node k = some x := by
+  have h := SysEx.summary_quiet sched hist allowed quiet k
+  have h0 : (SysEx.summary (Sys.runRev hist) k).isSome = true := by
+    rcases hk with rfl | rfl | rfl
+    · rw [hist_n0]; rfl
+    · rw [hist_n1]; rfl
+    · rw [hist_n2]; rfl
+  rw [← h] at h0
+  unfold SysEx.summary at h0
+  cases hx : (Sys.runRev (sched ++ hist)).node k with
+  | none => rw [hx] at h0; cases h0
+  | some x => exact ⟨x, rfl⟩
+
+theorem registry_final {k : String} {x : SysNode} (h : (Sys.runRev (sched ++ hist)).node k = some x) (e : String) :
+    x.mgr.registry e = if k = "n1" ∧ e = "foo" then [3] else if k = "n1" ∧ e = "baz" then [9]
+      else if k = "n2" ∧ e = "foo" then [5] else [] := by
+  rcases final_node h with ⟨rfl, hl, _, _⟩ | ⟨rfl, hl, _, _⟩ | ⟨rfl, hl, _, _⟩ <;>
+    simp only [Upstream.Mgr.registry, hl, AMap.find_cons, AMap.find_nil] <;>
+    (by_cases he : "foo" = e
+     · subst he; simp
+     · have he' : ¬ e = "foo" := fun h => he h.symm
+       by_cases hb : "baz" = e
+       · subst hb; simp
+       · have hb' : ¬ e = "baz" := fun h => hb h.symm
+         simp [he, he', hb, hb'])
+
+theorem healthyExcept : SysHealthyExcept (Sys.runRev (sched ++ hist)) "n1" where
+  left := by
+    intro x h
+    rcases final_node h with ⟨hk, _⟩ | ⟨_, _, _, hl⟩ | ⟨hk, _⟩
+    · exact absurd hk (by decide)
+    · exact hl
+    · exact absurd hk (by decide)
+  notLeft := by
+    intro n x hn h
+    rcases final_node h with ⟨_, _, _, hl⟩ | ⟨hk, _⟩ | ⟨_, _, _, hl⟩
+    · exact hl
+    · exact absurd hk hn
+    · exact hl
+  reachable := fun n x k V h hV hne _ =>
+    no_unreachable_of_noLiveEvs (sysInv_runRev _ allowed) (noLiveEvs_runRev _ allowed noLiveness) h hV hne
+  addrs := by
+    intro n x _ h
+    rcases final_node h with ⟨_, _, hl, _⟩ | ⟨_, _, hl, _⟩ | ⟨_, _, hl, _⟩ <;> rw [hl] <;> decide
+  small := by
+    intro n x e _ h
+    rw [registry_final h]
+    split
+    · simp
+    · split
+      · simp
+      · split <;> simp
+  distinct := by
+    intro b c xb xc hb hc hbc
+    rcases final_node hb with ⟨rfl, _, hlb, _⟩ | ⟨rfl, _, hlb, _⟩ | ⟨rfl, _, hlb, _⟩ <;>
+      rcases final_node hc with ⟨rfl, _, hlc, _⟩ | ⟨rfl, _, hlc, _⟩ | ⟨rfl, _, hlc, _⟩ <;>
+      first
+      | rfl
+      | (rw [hlb, hlc] at hbc; revert hbc; decide)
+
+end LeaveEx
+
+open Piko.Proxy in
+/-- **Non-vacuity of `C18_system_leave_settled` and `C18_system_leave_routing`** on `LeaveEx`: `n1` left
+while upstream 3 (`foo`) and upstream 9 (`baz`) were still registered with it.  After its push to `n0`
+and the six exchanges: no node has `n1` as a lookup candidate; for every choice `LookupEndpoint` makes, a
+request for `foo` entering at `n0` is delivered to upstream 5 on `n2` (never to upstream 3 on the
+leaver), and a request for `baz` - registered only on the leaver - is answered 502 by `n0`. -/
+example (choices : List Nat) :
+    (∀ q xq, (Sys.runRev (LeaveEx.sched ++ LeaveEx.hist)).node q = some xq →
+      ∀ e, ∀ c ∈ xq.mgr.cluster.lookupCandidates e, c.id ≠ "n1") ∧
+    (route { splitHostPort := fun _ => none, parseIP := fun _ => false }
+        (Sys.runRev (LeaveEx.sched ++ LeaveEx.hist)).world "n0" { host := "foo.example.com" } choices).1.outcome =
+      .served "n2" "foo" 5 ∧
+    (route { splitHostPort := fun _ => none, parseIP := fun _ => false }
+        (Sys.runRev (LeaveEx.sched ++ LeaveEx.hist)).world "n0" { host := "baz.example.com" } choices).1 =
+      { visited := ["n0"], via := [], outcome := .noUpstream "n0" } := by
+  obtain ⟨x0, h0⟩ := LeaveEx.final_exists "n0" (Or.inl rfl)
+  obtain ⟨x2, h2⟩ := LeaveEx.final_exists "n2" (Or.inr (Or.inr rfl))
+  refine ⟨?_, ?_, ?_⟩
+  · intro q xq hq
+    cases hx : (Sys.runRev LeaveEx.hist).node "n1" with
+    | none => have := LeaveEx.hist_n1; simp [SysEx.summary, hx] at this
+    | some xa0 =>
+      have hl : (own xa0.mgr.gossip).left = true := by
+        have := LeaveEx.hist_n1
+        simp only [SysEx.summary, hx, Option.map_some, Option.some.injEq, Prod.mk.injEq] at this
+        exact this.2.2
+      exact (C18_system_leave_settled LeaveEx.hist LeaveEx.sched LeaveEx.allowed LeaveEx.quiet LeaveEx.joins
+        "n1" xa0 hx hl q xq hq).1
+  · have h := (C18_system_leave_routing LeaveEx.hist LeaveEx.sched LeaveEx.allowed LeaveEx.quiet LeaveEx.joins
+      "n1" LeaveEx.healthyExcept { splitHostPort := fun _ => none, parseIP := fun _ => false } "n0" (by decide) x0 h0
+      { host := "foo.example.com" } rfl "foo" (by decide) choices).1
+      ⟨"n2", x2, by decide, h2, by rw [LeaveEx.registry_final h2]; simp⟩
+    obtain ⟨k, xk, u, hka, hk, hu, hout⟩ := h
+    rw [LeaveEx.registry_final hk] at hu
+    split at hu
+    · next hc => exact absurd hc.1 hka
+    · split at hu
+      · next hc => exact absurd hc.1 hka
+      · split at hu
+        · next hc =>
+          obtain ⟨rfl, _⟩ := hc
+          simp only [List.mem_cons, List.not_mem_nil, or_false] at hu
+          subst hu; exact hout
+        · simp at hu
+  · refine (C18_system_leave_routing LeaveEx.hist LeaveEx.sched LeaveEx.allowed LeaveEx.quiet LeaveEx.joins
+      "n1" LeaveEx.healthyExcept { splitHostPort := fun _ => none, parseIP := fun _ => false } "n0" (by decide) x0 h0
+      { host := "baz.example.com" } rfl "baz" (by decide) choices).2 ?_
+    intro k xk hka hk
+    rw [LeaveEx.registry_final hk]
+    have : ¬ k = "n1" := hka
+    simp [this]
+
+/-- the endpoint the last example asks for **is** registered - on the leaver only -/
+example : ∃ x1, (Sys.runRev (LeaveEx.sched ++ LeaveEx.hist)).node "n1" = some x1 ∧
+    x1.mgr.registry "baz" = [9] ∧ (own x1.mgr.gossip).left = true := by
+  obtain ⟨x1, h1⟩ := LeaveEx.final_exists "n1" (Or.inr (Or.inl rfl))
+  refine ⟨x1, h1, by rw [LeaveEx.registry_final h1]; simp, ?_⟩
+  rcases LeaveEx.final_node h1 with ⟨hk, _⟩ | ⟨_, _, _, hl⟩ | ⟨hk, _⟩
+  · exact absurd hk (by decide)
+  · exact hl
+  · exact absurd hk (by decide)
+
+/-- a leaver whose only upstream disconnected first: `n1` registered upstream 3 for `foo` and removed it
+again (latest first) -/
+def drainedHist : List SysOp :=
+  [.removeConn "n1" 3 "foo", .addConn "n1" 3 "foo", .boot "n1" "g1" "p1" "a1", .boot "n0" "g0" "p0" "a0"]
+
+set_option maxRecDepth 8000 in
+/-- **Non-vacuity of `C18_system_leaver_advertises_nothing`**: `n1`'s registry is empty, its own gossip
+state still holds `endpoint:foo` - as a tombstone - and the delta it pushes when it leaves now carries no
+live `endpoint:` entry. -/
+example : ∃ xa, (Sys.runRev drainedHist).node "n1" = some xa ∧ (∀ e, xa.mgr.registry e = []) ∧
+    ((own xa.mgr.gossip).entries.find "endpoint:foo").map (fun en => (en.deleted, en.version)) = some (true, 4) ∧
+    (∀ de ∈ localDelta (leaveLocal xa.mgr.gossip), ∀ x ∈ de.entries, ∀ e,
+      x.key = "endpoint:" ++ e → x.deleted = true) := by
+  have hsum : ((Sys.runRev drainedHist).node "n1").map (fun x => (x.mgr.lbs,
+      ((own x.mgr.gossip).entries.find "endpoint:foo").map (fun en => (en.deleted, en.version)))) =
+      some ([], some (true, 4)) := by decide
+  cases hx : (Sys.runRev drainedHist).node "n1" with
+  | none => rw [hx] at hsum; cases hsum
+  | some xa =>
+    rw [hx] at hsum
+    simp only [Option.map_some, Option.some.injEq, Prod.mk.injEq] at hsum
+    have hempty : ∀ e, xa.mgr.registry e = [] := fun e => by simp [Upstream.Mgr.registry, hsum.1]
+    have hallowed : SysAllowed drainedHist := by simp [drainedHist, SysAllowed, SysStepAllowed]
+    exact ⟨xa, rfl, hempty, hsum.2,
+      (C18_system_leaver_advertises_nothing drainedHist hallowed "n1" xa hx hempty).1⟩
+
+end SysLeaveExample
 
 end Piko
